@@ -329,3 +329,51 @@ pub fn retire_and_drained_native(allow_more: bool) -> u32 {
     assert!(ep.open_connections() == 1);
     1 + allow_more as u32
 }
+
+/// Native replay body for the E2 slice query `e2_endpoint_add_connection_cids_slice` (C09 / C08), through
+/// the real `Endpoint::add_connection` for a server connection with (`pref`) or without a preferred-address
+/// CID: the CIDs recorded at creation survive the first batch of newly issued identifiers (no sequence number
+/// is reused), every recorded CID routes to the connection, and after `Drained` none of them routes anywhere.
+pub fn add_connection_cids_native(pref: bool) -> u32 {
+    use crate::connection::verif::nullcrypto;
+    let mut cfg = EndpointConfig::new(Arc::new(NullHmac));
+    cfg.rng_seed(Some([7; 32]));
+    let mut ep = Endpoint::new(Arc::new(cfg), None, true);
+    let now = crate::verif::mk_instant(50, 0).unwrap();
+    let server_config = Arc::new(ServerConfig::new(Arc::new(nullcrypto::NullServerCrypto), Arc::new(nullcrypto::NullTokenKey)));
+    let ch = ConnectionHandle(ep.connections.vacant_key());
+    let loc_cid = ep.new_cid(ch);
+    let pref_cid = if pref { Some(ep.new_cid(ch)) } else { None };
+    let addresses = FourTuple { remote: "10.0.0.1:4433".parse().unwrap(), local_ip: None };
+    let _conn = ep.add_connection(
+        ch,
+        1,
+        ConnectionId::new(&[1; 8]),
+        loc_cid,
+        ConnectionId::new(&[3; 8]),
+        addresses,
+        now,
+        Box::new(nullcrypto::NullSession),
+        Arc::new(TransportConfig::default()),
+        SideArgs::Server { server_config, pref_addr_cid: pref_cid, path_validated: true },
+    );
+    ep.index.insert_initial(ConnectionId::new(&[1; 8]), ch);
+    let at_creation: Vec<ConnectionId> = ep.connections[ch].loc_cids.values().copied().collect();
+    assert!(at_creation.len() == 1 + pref as usize);
+    let ev = ep.handle_event(ch, EndpointEvent(EndpointEventInner::NeedIdentifiers(now, 3)));
+    let Some(ConnectionEvent(ConnectionEventInner::NewIdentifiers(ids, _))) = ev else { panic!("no identifiers issued") };
+    let mut all = at_creation.clone();
+    all.extend(ids.iter().map(|i| i.id));
+    for cid in &at_creation {
+        assert!(ep.connections[ch].loc_cids.values().any(|c| c == cid), "a CID recorded at creation was overwritten by a newly issued one (sequence number reused)");
+    }
+    assert!(ep.connections[ch].loc_cids.len() == all.len());
+    for cid in &all {
+        assert!(ep.index.connection_ids.get(cid) == Some(&ch));
+    }
+    assert!(ep.handle_event(ch, EndpointEvent(EndpointEventInner::Drained)).is_none());
+    for cid in &all {
+        assert!(ep.index.connection_ids.get(cid).is_none(), "a CID of a drained connection still routes");
+    }
+    1 + pref as u32
+}
